@@ -335,11 +335,12 @@ xrcmd(char *ahost, char *addr, char *locuser, char *remuser,
         char *p = tmpbuf;
 
         while (read(s, &c, 1) == 1) {
-            *p++ = c;
+            if (p < tmpbuf + sizeof (tmpbuf) - 2)   /* room for "\n\0" */
+                *p++ = c;
             if (c == '\n')
                 break;
         }
-        if (c != '\n')
+        if (p == tmpbuf || p[-1] != '\n')
             *p++ = '\n';
         *p++ = '\0';
         err("%S: %s", ahost, tmpbuf);
